@@ -226,6 +226,7 @@ def _model(draw):
     # an object that may be missing (Optional[X]: its methods are those of X), a concrete class whose generic base is its second base
     m["Evt"].append(["lead", ["opt", ["c", "Jet", []]]])
     m["Evt"].append(["mib", ["c", "MixIntBox", []]])
+    m["Evt"].append(["obox", ["opt", ["c", "Box", [draw(st.sampled_from([["int"], ["c", "Trk", []]]))]]]])  # Optional[Box[int]]: get() -> int
     # a two-parameter generic with two DIFFERENT arguments is reachable from the event (which argument a method's variable takes)
     m["Evt"].append(["pair", ["c", draw(st.sampled_from(["Pair", "Pair", "Swap", "Tag", "Tag2"])), [["c", "Trk", []], draw(st.sampled_from([["int"], ["float"], ["c", "Jet", []]]))]]])
     return m
